@@ -123,7 +123,7 @@ Proof.
 Qed.
 
 Lemma round_row_cells tc cp g : tc <= q -> comp_ok fb tc cp -> g < n ->
-  Forall (fun cell => exists l, cell = Some l /\ l < nlevels fb g) (round_row fb tc cp g).
+  Forall (fun cell => exists l, cell = Some l /\ l < nlevels fb g /\ ~ In (FExclude g l) (fl_constraints fb)) (round_row fb tc cp g).
 Proof.
   intros Hle Hok Hg. apply (K_In fb HF Hq) in Hg. apply in_app_iff in Hg.
   destruct cp as [[c0 c1] c2]. pose proof Hok as (Hc0 & _ & Hc2).
@@ -133,8 +133,18 @@ Proof.
     rewrite (round_row_crossed fb HF Hq tc (c0, c1, c2) i g Hle Hok Hi). cbn [fst].
     apply Forall_forall. intros cell Hcell. apply in_map_iff in Hcell. destruct Hcell as [t [E Ht]].
     apply in_seq in Ht. exists (crossed_level fb (perm_of fb tc c0) i t). split; [symmetry; exact E|].
-    apply crossed_level_lt; [exact Hi|].
-    pose proof (Forall_nth' _ _ t 0%Z Hpb ltac:(lia)) as H. cbv beta in H. lia.
+    pose proof (Forall_nth' _ _ t 0%Z Hpb ltac:(lia)) as H. cbv beta in H.
+    split; [apply crossed_level_lt; [exact Hi | lia]|].
+    intros Hex. unfold crossed_level in Hex.
+    set (combo := nth (Z.to_nat (nth t (perm_of fb tc c0) 0%Z)) prod []) in *.
+    assert (Hin : In combo prod) by (apply nth_In; fold q; lia).
+    apply (f0_cprod_spec fb HF) in Hin. destruct Hin as [Hp Hne].
+    assert (Et : is_excluded_combination fb (combine c combo) = true).
+    { apply (f0_excluded_spec fb HF). exists g, (nth i combo 0). split; [exact Hex|].
+      pose proof (product_length_elem _ _ Hp) as Hl. rewrite map_length in Hl.
+      rewrite (alookup_combine c combo i g (f0_nodup fb (f0_unpack fb HF)) Hl Hi).
+      apply nth_error_nth'. rewrite Hl. apply nth_error_Some. congruence. }
+    congruence.
   - apply In_nth_error in Hg. destruct Hg as [j Hj].
     rewrite (round_row_ind fb HF Hq tc (c0, c1, c2) j g Hle Hok Hj). cbn [snd].
     apply Forall_forall. intros cell Hcell. apply in_map_iff in Hcell. destruct Hcell as [t [E Ht]].
@@ -147,15 +157,31 @@ Proof.
     pose proof (Forall_nth' _ _ t 0%Z Hcd ltac:(lia)) as H. cbv beta in H.
     unfold lv_of. assert (Hin : In (nth (Z.to_nat (nth t (combo_of tc (length (f0_L fb g)) (nth j c2 0%Z)) 0%Z)) (f0_L fb g) 0) (f0_L fb g))
       by (apply nth_In; lia).
-    apply (f0_L_spec fb HF) in Hin. apply Hin.
+    apply (f0_L_spec fb HF) in Hin. exact Hin.
 Qed.
 
 
 Lemma decoded_row_cells k g : key_ok fb k -> g < n ->
-  Forall (fun cell => exists l, cell = Some l /\ l < nlevels fb g) (decoded_row fb k g).
+  Forall (fun cell => exists l, cell = Some l /\ l < nlevels fb g /\ ~ In (FExclude g l) (fl_constraints fb)) (decoded_row fb k g).
 Proof.
   intros Hk Hg. rewrite decoded_row_rounds. apply Forall_flat_map. intros rc Hrc.
   destruct (all_rounds_ok k Hk rc Hrc) as (Hle & _ & Hok). apply round_row_cells; assumption.
+Qed.
+
+Lemma count_level_none l row : (forall cell, In cell row -> cell <> Some l) -> count_level l row = 0.
+Proof.
+  unfold count_level. induction row as [|x t IH]; intros H; [reflexivity|]. cbn [filter].
+  destruct (cell_eqb x (Some l)) eqn:E.
+  - exfalso. apply (H x (or_introl eq_refl)). destruct x as [y|]; [|discriminate]. cbn in E. apply Nat.eqb_eq in E. subst. reflexivity.
+  - apply IH. intros cl Hc. apply H. right. exact Hc.
+Qed.
+
+Lemma decoded_row_not_excluded k g l : key_ok fb k -> g < n -> In (FExclude g l) (fl_constraints fb) ->
+  count_level l (decoded_row fb k g) = 0.
+Proof.
+  intros Hk Hg Hex. apply count_level_none. intros cell Hc E.
+  pose proof (decoded_row_cells k g Hk Hg) as Hcells. rewrite Forall_forall in Hcells.
+  destruct (Hcells cell Hc) as (l' & El & _ & Hne). subst cell. inversion El; subst. contradiction.
 Qed.
 
 (** counting a combination in a block built from a duplicate-free index list *)
@@ -225,7 +251,7 @@ Proof.
   apply forallb_forall. intros t Ht. apply in_seq in Ht.
   unfold get_cell, cell. rewrite tseq_row by exact Hf.
   pose proof (decoded_row_cells k f Hk Hf) as Hcells.
-  pose proof (Forall_nth' _ _ t None Hcells ltac:(rewrite decoded_row_length by assumption; lia)) as [l [El Hl]].
+  pose proof (Forall_nth' _ _ t None Hcells ltac:(rewrite decoded_row_length by assumption; lia)) as [l [El [Hl _]]].
   rewrite El. unfold applies. rewrite Hder, Hnl, Hsu. rewrite Nat.div_1_r, Nat.mul_1_r, El.
   cbn [cell_eqb andb]. rewrite Nat.eqb_refl.
   replace (l <? nlevels fb f) with true by (symmetry; apply Nat.ltb_lt; exact Hl). reflexivity.
